@@ -2591,7 +2591,7 @@ CLAUSES = [
                               'nt': 0.08, 'imageflags': 0.1, 'shuffled': 0.02, 'hybrid': 0.05, 'extended': 0.2,
                               'velocities': 0.14, 'comments_blank': 0.11, 'multitype': 0.06,
                               'units': 0.22, 'units_pre': 0.14, 'units_pre_default': 0.11, 'units_pre_other': 0.011,
-                              'units_cross': 0.07, 'units_seed': 0.04, 'units_named': 0.15, 'units_A_lt1e-3': 0.08,
+                              'units_cross': 0.07, 'units_seed': 0.02, 'units_named': 0.15, 'units_A_lt1e-3': 0.08,
                               'units_A_ge1e-3': 0.08}, 0),
            desc="load('atom_data', dump('atom_data')): cell after the documented wrap, types, positions with image flags "
                 "re-applied, every style column and the Velocities section, all styles/units/formats; shuffled lines, "
@@ -2600,7 +2600,7 @@ CLAUSES = [
            min_share=_Guards({'tiny_tilt': 0.07, 'tiny_1e-9_1e-6': 0.03, 'tiny_1e-6_1e-3': 0.025, 'sym': 0.06, 'near_face': 0.07, 'vals_decades': 0.05, 'vals_near': 0.03, 'store': 0.08, 'store_narrow_float': 0.07, 'store_narrow_int': 0.05, 'store_strided': 0.07, 'store_list': 0.065, 'post_other': 0.055, 'post_in': 0.13, 'post_out': 0.13, 'post_redump': 0.12, 'ledger': 0.3, 'ledger_other_natoms': 0.05, 'ledger_across_rounds': 0.1,
                               'told_dtype': 0.09, 'told_narrow_dtype': 0.02, 'pos_decades': 0.03,
                               'units': 0.22, 'units_pre': 0.14, 'units_pre_default': 0.11, 'units_pre_other': 0.011,
-                              'units_cross': 0.07, 'units_seed': 0.04, 'units_named': 0.15, 'units_A_lt1e-3': 0.08,
+                              'units_cross': 0.07, 'units_seed': 0.02, 'units_named': 0.15, 'units_A_lt1e-3': 0.08,
                               'units_A_ge1e-3': 0.08, 'nt': 0.09, 'shuffled': 0.08, 'with_prop_info': 0.16, 'own_ids': 0.09, 'scaled_cols': 0.05,
                               'unit_dim_shape': 0.23, 'one_column_shape': 0.15, 'explicit_columns': 0.17,
                               'load_via_lists': 0.09, 'load_via_prop_info': 0.035, 'dump_via_prop_info': 0.04,
@@ -2611,7 +2611,7 @@ CLAUSES = [
            min_share=_Guards({'tiny_tilt': 0.07, 'tiny_1e-9_1e-6': 0.03, 'tiny_1e-6_1e-3': 0.025, 'sym': 0.06, 'near_face': 0.07, 'vals_decades': 0.05, 'vals_near': 0.03, 'store': 0.08, 'store_narrow_float': 0.07, 'store_narrow_int': 0.05, 'store_strided': 0.07, 'store_list': 0.065, 'post_other': 0.055, 'post_in': 0.13, 'post_out': 0.13, 'post_redump': 0.12, 'ledger': 0.3, 'ledger_other_natoms': 0.05, 'ledger_across_rounds': 0.1,
                               'told_dtype': 0.1, 'told_narrow_dtype': 0.03, 'pos_decades': 0.035, 'sym_perm': 0.025, 'lefthanded': 0.008,
                               'units': 0.22, 'units_pre': 0.14, 'units_pre_default': 0.11, 'units_pre_other': 0.011,
-                              'units_cross': 0.04, 'units_seed': 0.04, 'units_named': 0.15, 'units_A_lt1e-3': 0.08,
+                              'units_cross': 0.04, 'units_seed': 0.02, 'units_named': 0.15, 'units_A_lt1e-3': 0.08,
                               'units_A_ge1e-3': 0.08, 'nt': 0.2, 'rank2plus': 0.2, 'unit_conv': 0.14, 'header': 0.15, 'shuffled': 0.037,
                               'unit_dim_shape': 0.26, 'one_column_shape': 0.18, 'explicit_columns': 0.18,
                               'load_via_lists': 0.09, 'load_via_prop_info': 0.035, 'dump_via_prop_info': 0.055,
@@ -2622,7 +2622,7 @@ CLAUSES = [
            min_share=_Guards({'tiny_tilt': 0.07, 'tiny_1e-9_1e-6': 0.03, 'tiny_1e-6_1e-3': 0.025, 'sym': 0.06, 'near_face': 0.07, 'store': 0.08, 'store_narrow_float': 0.07, 'store_narrow_int': 0.04, 'store_strided': 0.07, 'store_list': 0.065, 'post_other': 0.055, 'post_in': 0.13, 'post_out': 0.13, 'post_redump': 0.12, 'ledger': 0.3, 'ledger_other_natoms': 0.05, 'ledger_across_rounds': 0.1,
                               'sym_perm': 0.025, 'lefthanded': 0.008, 'store_pos_f4': 0.02,
                               'units': 0.22, 'units_pre': 0.14, 'units_pre_default': 0.11, 'units_pre_other': 0.011,
-                              'units_seed': 0.04, 'units_named': 0.15, 'units_A_lt1e-3': 0.08, 'units_A_ge1e-3': 0.08,
+                              'units_seed': 0.02, 'units_named': 0.15, 'units_A_lt1e-3': 0.08, 'units_A_ge1e-3': 0.08,
                               'nt': 0.2, 'cartesian': 0.23, 'scaled_box': 0.3, 'type_gap': 0.15, 'symbols_line': 0.2, 'multitype': 0.13}, 1),
            desc="load('poscar', dump('poscar')): cell (scale factor), types grouped, symbols line, positions as type-wise "
                 "multisets (direct: relative coordinates; Cartesian: up to the origin shift)"),
@@ -2630,7 +2630,7 @@ CLAUSES = [
            min_share=_Guards({'ledger': 0.45, 'ledger_across_rounds': 0.4, 'tiny_tilt': 0.06, 'sym': 0.05, 'near_face': 0.06,
                               'store': 0.08, 'store_narrow_int': 0.04, 'store_strided': 0.05,
                               'units': 0.22, 'units_pre': 0.14, 'units_pre_default': 0.11, 'units_pre_other': 0.011,
-                              'units_seed': 0.03, 'units_named': 0.15, 'units_A_lt1e-3': 0.07, 'units_step': 0.063,
+                              'units_seed': 0.02, 'units_named': 0.15, 'units_A_lt1e-3': 0.07, 'units_step': 0.063,
                               'units_step_setters': 0.03, 'units_step_rebuild': 0.03, 'redump_after_units_step': 0.045,
                               'nt': 0.17, 'redump': 0.4, 'rel_after_inplace_wrap': 0.14, 'rel_after_inplace_extension': 0.12,
                               'rel_after_modification': 0.05, 'safecopy': 0.17, 'box_modified': 0.06, 'pos_modified': 0.06,
